@@ -11,7 +11,7 @@
   * `ProtoOk rs`: the sequence obeys the transaction protocol (no `CommitTx` without its `BeginTx`, no operation
     outside a transaction) — what every writer produces.
   The ideal log tolerates any tail: opening never fails, yields `specTxs` of the completely written records, and
-  continues the log right after them.
+  the next record is written right after them.
 -/
 import Nervus.Model.WalFrame
 namespace Nervus.WalFrame
